@@ -11,6 +11,7 @@ import (
 	"runtime"
 	"runtime/debug"
 	"sort"
+	"strconv"
 	"strings"
 	"sync"
 	"time"
@@ -85,7 +86,13 @@ const (
 )
 
 // CPUHangLimit is the CPU-time budget of a single case (inputs are <= 64 KiB).
-var CPUHangLimit = 20.0
+var CPUHangLimit = func() float64 {
+	// VERIF_CPU_LIMIT overrides the budget (used to exercise the watchdog itself)
+	if v, err := strconv.ParseFloat(os.Getenv("VERIF_CPU_LIMIT"), 64); err == nil && v > 0 {
+		return v
+	}
+	return 20.0
+}()
 
 func (w *Worker) watchdog() {
 	for {
